@@ -63,6 +63,11 @@ def main(tier_):
     for sig, desc, rep in va.violations:
         v.violation(dict(sig, family="lookups"), "C04/lookups: " + desc, rep)
     stats["lookup_cases"] = cova["traces_validated_against_impl"]
+    # the backends must agree up to the kernel's real link budget: a chain of exactly 40 links resolves on both
+    vb, covb, _ = lookup_static.run("C04", tier_, "MC_C01_budget.cfg", sample=None, bind_budget=True)
+    for sig, desc, rep in vb.violations:
+        v.violation(dict(sig, family="real-budgets"), "C04/lookups at the real link budget: " + desc, rep)
+    stats["lookup_cases_real_budget"] = covb["traces_validated_against_impl"]
     # (b) mutations
     data = rootops_static.run("C04", tier_, sample=1200 if quick else None)
     for ci, c in enumerate(data["cases"]):
@@ -137,7 +142,7 @@ def main(tier_):
                evaluations=2 * (stats["lookup_cases"] + stats["mutation_cases"] + stats["mkrm_cases"] + stats["lattice_cases"]),
                distinct_nontrivial=stats["mutation_cases"] + stats["mkrm_cases"] + stats["lattice_cases"],
                rule="paired case = same tree and arguments executed once per feature set; families: TLC lookup cases, TLC single-entry mutation cases, TLC mkdir_all/remove_all spellings, open flag lattice (4 access modes x subsets of <=3 of 11 flag bits) x 13 paths; non-trivial counts the mutation and flag families",
-               exhaustive=not quick, flag_combinations=ncombos, lookup_cases=stats["lookup_cases"], mutation_cases=stats["mutation_cases"], mkrm_cases=stats["mkrm_cases"],
+               exhaustive=not quick, flag_combinations=ncombos, lookup_cases=stats["lookup_cases"], lookup_cases_real_budget=stats["lookup_cases_real_budget"], mutation_cases=stats["mutation_cases"], mkrm_cases=stats["mkrm_cases"],
                lattice_cases=stats["lattice_cases"], inconclusive_eagain=stats["inconclusive_eagain"],
                flag_sets_accepted=stats["flag_sets_accepted"], flag_sets_not_accepted_by_openat2=stats["flag_sets_not_accepted_by_openat2"])
     write_evidence("C04", tier_, "model_checking", cov, ASSUME, time.time() - t0, len(v.violations))
